@@ -151,6 +151,64 @@ fn roundtrip<F: Fam>(rep: &mut Report, c: &Case<F>) {
     }
 }
 
+/// C05/C06 on PADDED fixed headers: the same frame with its remaining length spelt in every longer legal
+/// form, and the transport Pending (future kept, future dropped) after each of the first bytes — in particular
+/// exactly between the last length byte and the first body byte. Same packet, `total` = bytes of THIS spelling.
+fn padded<F: Fam>(rep: &mut Report, c: &Case<F>) {
+    if c.enc.len() > (2 << 20) {
+        return;
+    }
+    let hl = header_len(c.enc.len());
+    let rl = c.enc.len() - hl;
+    for width in hl..=4 {
+        // (hl - 1) is the minimal width; `width` length bytes here
+        let mut frame = vec![c.enc[0]];
+        let mut n = rl;
+        for i in 0..width {
+            let mut b = (n & 0x7f) as u8;
+            n >>= 7;
+            if i + 1 < width {
+                b |= 0x80;
+            }
+            frame.push(b);
+        }
+        let fh = frame.len();
+        frame.extend_from_slice(&c.enc[hl..]);
+        let mut ext = frame.clone();
+        ext.extend_from_slice(&[0xc0, 0x00, 0x31, 0xff, 0xff]);
+        let mut scheds: Vec<Vec<Sched>> = vec![vec![], chunky()];
+        for k in 1..=fh + 1 {
+            for pend in [Sched::Pending, Sched::PendingDrop] {
+                let mut v = vec![Sched::Chunk(1); k];
+                v.push(pend);
+                v.push(Sched::Rest(1 << 20));
+                scheds.push(v);
+            }
+        }
+        for (tag, data) in [("exact", &frame), ("with-trailing", &ext)] {
+            match F::decode(data) {
+                Ok(Some(q)) if &q == c.p => {}
+                other => rep.fail("large-padded-blocking", c.what.clone(), format!("{} length bytes, {}: blocking decode gave {:?}", width, tag, other.map(|o| o.is_some()).map_err(|e| e.text))),
+            }
+            for sched in &scheds {
+                match F::decode_async(data, sched.clone(), Term::Eof) {
+                    (Ok(q), n) if &q == c.p && n == frame.len() => {}
+                    (r, n) => rep.fail("large-padded-async", c.what.clone(), format!("{} length bytes, {} (reader schedule {}): async decode gave {:?}, consumed {} of {}", width, tag, sched_text(sched), r.map(|_| "a different packet").map_err(|e| e.text), n, frame.len())),
+                }
+                let o = F::poll(data, sched.clone(), Term::Eof);
+                match o.res {
+                    Ok((total, body, q)) if q == *c.p && total == frame.len() && body[..] == frame[fh..] && o.consumed == frame.len() => {}
+                    r => rep.fail(
+                        "large-padded-poll",
+                        c.what.clone(),
+                        format!("{} length bytes, {} (reader schedule {}): poll decode gave {:?}, consumed {} (this spelling is {} bytes)", width, tag, sched_text(sched), r.map(|(t, b, _)| (t, b.len())).map_err(|e| e.text), o.consumed, frame.len()),
+                    ),
+                }
+            }
+        }
+    }
+}
+
 /// C05 on a TRICKLE: a never-Pending transport that delivers 1 (or 3) bytes per read.  Thousands of
 /// consecutive ready reads inside one poll call: the decoder must neither return Pending on its own
 /// (cooperative-yield budgets), nor lose track of the frame.
@@ -298,6 +356,7 @@ fn one<F: Fam>(rep: &mut Report, prop: &str, what: String, p: &F::P, rng: &mut R
         "C05" | "C06" => {
             roundtrip(rep, &c);
             trickle(rep, &c);
+            padded(rep, &c);
         }
         "C01" | "C02" | "C03" | "C11" | "C12" => roundtrip(rep, &c),
         "C07" => cuts(rep, &c, false, rng),
